@@ -25,6 +25,9 @@ def call_raises(call: ast.Call, callee: str) -> List[str]:
         out.append('OSError')             # transport failure
     elif callee == 'socket.socket':
         out.append('OSError')
+    elif last in ('shutdown', 'getpeername', 'getsockname', 'setsockopt', 'settimeout', 'setblocking', 'makefile') \
+            and ('socket' in callee or 'sock' in callee):
+        out.append('OSError')             # e.g. shutdown() on a connection the peer already reset: ENOTCONN
     elif callee == 'next':
         out.extend(['StopIteration', 'Exception'])   # exhausted / arbitrary generator code
     elif last in ('get', 'get_nowait') and 'from_service_user' in callee:
